@@ -120,3 +120,20 @@ Print Assumptions C12_visited_iff.
 Theorem C12_falling_through_refuted : deliver_falling_through RForeign <> OErrorPath.
 Proof. exact falling_through_refuted. Qed.
 Print Assumptions C12_falling_through_refuted.
+
+(** The chain hands back a pair (value, error).  With an error the error path is taken and nothing else happens, even when
+    the value is a valid response object of the operation; a response is written exactly when the value is valid and there
+    is no error.  The wrapper text with the first else lost is refuted: it writes the response over the pending error. *)
+Theorem C12_error_decides : forall v, deliver_pair v true = [OErrorPath].
+Proof. exact error_decides. Qed.
+Print Assumptions C12_error_decides.
+
+Theorem C12_visited_iff_valid_and_no_error : forall v err,
+  In OVisited (deliver_pair v err) <-> (v = VValid /\ err = false).
+Proof. exact visited_iff_valid_and_no_error. Qed.
+Print Assumptions C12_visited_iff_valid_and_no_error.
+
+Theorem C12_lost_else_refuted :
+  deliver_pair VValid true = [OErrorPath] /\ deliver_pair_no_else VValid true = [OErrorPath; OVisited].
+Proof. exact lost_else_refuted. Qed.
+Print Assumptions C12_lost_else_refuted.
